@@ -85,6 +85,56 @@ func c15Source(c c15Cell) image.Image {
 		return m
 	}
 	r := image.Rect(c.OX, c.OY, c.OX+c.W, c.OY+c.H)
+	if c.Full == "neg" {
+		// a 32 x 32 image centred on the origin, whole or a window of it
+		pr := image.Rect(-16, -16, 16, 16)
+		var img image.Image
+		if c.Src == "NYCbCrA" {
+			m := image.NewNYCbCrA(pr, image.YCbCrSubsampleRatio420)
+			rng.Fill(m.Y)
+			rng.Fill(m.Cb)
+			rng.Fill(m.Cr)
+			rng.Fill(m.A)
+			img = m
+		} else {
+			m := image.NewYCbCr(pr, ycbcrRatios[c.Src])
+			rng.Fill(m.Y)
+			rng.Fill(m.Cb)
+			rng.Fill(m.Cr)
+			img = m
+		}
+		if c.Sub {
+			return img.(subImager).SubImage(r)
+		}
+		return img
+	}
+	if strings.HasPrefix(c.Full, "pal:") {
+		var n int
+		fmt.Sscanf(c.Full, "pal:%d", &n)
+		pal := make(color.Palette, n)
+		for i := range pal {
+			v := rng.U64()
+			pal[i] = color.NRGBA{R: uint8(v), G: uint8(v >> 8), B: uint8(v >> 16), A: uint8(v >> 24)}
+			if i%3 == 0 {
+				pal[i] = color.RGBA64{R: uint16(v) & uint16(v>>48), G: uint16(v>>16) & uint16(v>>48), B: uint16(v>>32) & uint16(v>>48), A: uint16(v >> 48)}
+			}
+		}
+		pr := r
+		if c.Sub {
+			pr = image.Rect(r.Min.X-2, r.Min.Y-1, r.Max.X+3, r.Max.Y+2)
+		}
+		m := image.NewPaletted(pr, pal)
+		for i := range m.Pix {
+			m.Pix[i] = uint8(rng.Intn(256))
+			if n < 256 {
+				m.Pix[i] = uint8(rng.Intn(n))
+			}
+		}
+		if c.Sub {
+			return m.SubImage(r)
+		}
+		return m
+	}
 	mode := 0
 	if c.Sub {
 		mode = 1
@@ -108,6 +158,21 @@ func c15Run(c c15Cell) (bad bool, msg string) {
 		}
 	}()
 	src := c15Source(c)
+	if c.Full == "neg" {
+		// only where the standard library itself can read every pixel of the image
+		if !func() (ok bool) {
+			defer func() { _ = recover() }()
+			bb := src.Bounds()
+			for y := bb.Min.Y; y < bb.Max.Y; y++ {
+				for x := bb.Min.X; x < bb.Max.X; x++ {
+					_ = src.At(x, y)
+				}
+			}
+			return true
+		}() {
+			return false, "the standard library cannot read this image"
+		}
+	}
 	snap := snapshot(src)
 	b := src.Bounds()
 	var got image.Image
@@ -289,6 +354,21 @@ func c15Cells(seed int64, thorough, race bool) []c15Cell {
 					sk := []string{"NRGBA", "RGBA", "YCbCr420", "NRGBA64", "RGBA64", "Gray"}[(rows+par)%6]
 					cells = append(cells, c15Cell{Helper: h, Src: sk, W: 2, H: rows, OX: 0, OY: 1, Par: par, Seed: uint64(rows*1000 + par)})
 				}
+			}
+		}
+	}
+	// chroma-subsampled images that reach into negative coordinates (as a whole, with even origin, and
+	// as interior windows at odd negative coordinates), and palettes of more than 256 entries (legal:
+	// a pixel can only name the first 256)
+	if !race {
+		for _, h := range c15Helpers {
+			for _, sk := range []string{"YCbCr444", "YCbCr422", "YCbCr420", "YCbCr440", "YCbCr411", "YCbCr410", "NYCbCrA"} {
+				for k, win := range [][4]int{{-16, -16, 16, 16}, {-7, -5, 9, 11}, {-13, -11, -2, -3}, {-5, -9, 4, 1}, {-1, -1, 3, 3}, {-15, 2, -6, 14}} {
+					cells = append(cells, c15Cell{Helper: h, Src: sk, Full: "neg", Sub: k > 0, OX: win[0], OY: win[1], W: win[2] - win[0], H: win[3] - win[1], Par: 1 + (k*3)%7, Seed: rng.U64()})
+				}
+			}
+			for k, n := range []int{257, 258, 300, 512, 1000, 256, 255} {
+				cells = append(cells, c15Cell{Helper: h, Src: "Paletted", Full: fmt.Sprintf("pal:%d", n), Sub: k%2 == 1, OX: 2, OY: 1, W: 23, H: 14, Par: 1 + k%5, Seed: rng.U64()})
 			}
 		}
 	}
